@@ -427,6 +427,10 @@ func (chunk *IDChunk) ReadFrom(r io.Reader) (int64, error) {
 		return bytesRead, fmt.Errorf("invalid IDChunk length %d", chunkLen)
 	}
 
+	// A chunk that is read into again describes what is read now: names of an
+	// earlier read must not survive (they are not covered by the signature).
+	chunk.Blocks = nil
+
 	blockLen := chunkLen - 2
 	var blockBytesRead int64
 	for blockBytesRead < int64(blockLen) {
